@@ -344,8 +344,7 @@ pub fn check(c: &Case, obs: &mut Obs) -> R {
             _ => None,
         };
         if let Some(q) = engine_sql {
-            let db = Db::memory();
-            match db.rows(&q) {
+            match crate::sqlite::scratch(|db| db.rows(&q)) {
                 Ok(rows) => {
                     if rows.len() != 1 || rows[0].first() != Some(&want) {
                         return fail(format!("{sigbase}/engine-value"), format!("payload {p:?}: {q:?} returned {rows:?}, expected {want:?}"));
@@ -356,8 +355,7 @@ pub fn check(c: &Case, obs: &mut Obs) -> R {
             }
         }
         if pos == Pos::Default {
-            let db = Db::memory();
-            let r = db.exec(&sql).and_then(|_| db.exec("INSERT INTO \"t\" DEFAULT VALUES")).and_then(|_| db.rows("SELECT \"c\" FROM \"t\""));
+            let r = crate::sqlite::scratch(|db| db.exec(&sql).and_then(|_| db.exec("INSERT INTO \"t\" DEFAULT VALUES")).and_then(|_| db.rows("SELECT \"c\" FROM \"t\"")));
             match r {
                 Ok(rows) => {
                     if rows.len() != 1 || rows[0].first() != Some(&want) {
